@@ -37,6 +37,13 @@ def _validate_selector(obj, selector):
         return True
 
 
+def is_ancestor_selector(ancestor, selector):
+    """Whether ``ancestor`` addresses ``selector`` itself or something which
+    contains it, comparing whole path steps (so that "pattern" is not an
+    ancestor of "pattern_type")."""
+    return selector == ancestor or selector.startswith(ancestor + '.')
+
+
 def _get_marking_id(marking):
     if type(marking).__name__ == 'MarkingDefinition':  # avoid circular import
         return marking.id
